@@ -124,11 +124,15 @@ RVALS = [0, 1, 2, 3, 0.5, -1, 0.25, 5, 9]
 def _num(rng, zero_ok=True):
     return rng.choice(NUMS + ([0, 0] if zero_ok else []))
 
-def gen_shape(rng, akind):
+def _pool(base, ns):
+    """feature names / levels of the ns-th environment of a collection (ns=0: the plain names)"""
+    return list(base) if not ns else [f"{b}{ns}" for b in base]
+
+def gen_shape(rng, akind, ns=0):
     """the structural parameters all actions of one environment share"""
     sh = {"akind": akind}
     if akind == "cat":
-        sh["L"] = rng.sample(["a", "b", "c", "d", "e"], rng.randint(2, 5))
+        sh["L"] = rng.sample(_pool(["a", "b", "c", "d", "e"], ns), rng.randint(2, 5))
     elif akind in ("dense", "lazy_dense"):
         sh["d"] = rng.randint(1, 3) if akind == "dense" else rng.randint(2, 3)
         sh["cont"] = rng.choice(["l", "t"])
@@ -137,19 +141,21 @@ def gen_shape(rng, akind):
             sh["h"] = ["x", "y", "z"][:sh["d"]]
     elif akind == "dense_cat":
         sh["d"] = rng.randint(2, 3); sh["cont"] = rng.choice(["l", "t"])
-        sh["L"] = rng.sample(["a", "b", "c", "d"], rng.randint(2, 4))
+        sh["L"] = rng.sample(_pool(["a", "b", "c", "d"], ns), rng.randint(2, 4))
         sh["p"] = sorted(rng.sample(range(sh["d"]), rng.choice([1, 1, 2])))
     elif akind == "nested":
         sh["d"] = rng.randint(2, 3); sh["cont"] = rng.choice(["l", "t"])
         sh["p"] = rng.randrange(sh["d"]); sh["icont"] = rng.choice(["l", "t"])
         sh["icat"] = rng.random() < .25
-        sh["L"] = rng.sample(["a", "b", "c", "d"], 3)
+        sh["L"] = rng.sample(_pool(["a", "b", "c", "d"], ns), 3)
     elif akind in ("sparse", "lazy_sparse"):
-        sh["keys"] = rng.sample(["x", "y", "z", "w", "u"], rng.randint(2, 4))
+        sh["keys"] = rng.sample(_pool(["x", "y", "z", "w", "u"], ns), rng.randint(2, 4))
+    elif akind == "sparse_ind":
+        sh["keys"] = rng.sample(_pool(["x", "y", "z", "w", "u", "v"], ns), rng.randint(2, 6)); sh["lazy"] = rng.random() < .25
     elif akind == "sparse_cat":
-        sh["keys"] = rng.sample(["x", "y", "z"], rng.randint(1, 2)); sh["L"] = rng.sample(["a", "b", "c", "d"], rng.randint(2, 4))
+        sh["keys"] = rng.sample(_pool(["x", "y", "z"], ns), rng.randint(1, 2)); sh["L"] = rng.sample(_pool(["a", "b", "c", "d"], ns), rng.randint(2, 4))
     elif akind == "sparse_nested":
-        sh["keys"] = rng.sample(["x", "y", "z"], rng.randint(1, 2))
+        sh["keys"] = rng.sample(_pool(["x", "y", "z"], ns), rng.randint(1, 2))
     elif akind == "onehot":
         sh["N"] = rng.randint(2, 5)
     return sh
@@ -180,6 +186,10 @@ def gen_one_action(rng, sh):
         ks = [x for x in sh["keys"] if rng.random() < .6] or [rng.choice(sh["keys"])]
         d = {x: _num(rng, False) for x in ks}
         return {"d": d} if k == "sparse" else {"ls": d}
+    if k == "sparse_ind":
+        # an indicator action: one (environment specific) feature per action, the usual shape of a sparse action id
+        d = {rng.choice(sh["keys"]): 1}
+        return {"ls": d} if sh["lazy"] else {"d": d}
     if k == "sparse_cat":
         d = {x: _num(rng, False) for x in sh["keys"] if rng.random() < .6}
         d["k"] = {"c": rng.choice(sh["L"]), "L": sh["L"]}
@@ -214,7 +224,10 @@ def canon_eq(v):
     return strip(c)
 
 AKINDS = ["int", "float", "str", "cat", "cat", "onehot", "dense", "dense_cat", "dense_cat", "nested", "nested", "sparse",
-          "sparse_cat", "sparse_nested", "lazy_dense", "lazy_sparse"]
+          "sparse_cat", "sparse_nested", "lazy_dense", "lazy_sparse", "sparse_ind"]
+# collections of environments: the kinds whose representation is keyed by names / levels are drawn more often
+AKINDS_COLL = ["sparse_ind", "sparse_ind", "sparse_ind", "sparse", "sparse", "lazy_sparse", "sparse_cat", "cat", "cat", "dense_cat",
+               "onehot", "str", "dense", "int", "nested", "lazy_dense", "sparse_nested"]
 HASHABLE = {"int", "float", "str", "cat", "onehot"}
 
 def gen_reward_spec(rng, rkind, n, akind, acts):
@@ -250,9 +263,10 @@ def gen_context(rng, ckind, shape):
         return {shape["cont"]: [({"c": rng.choice(shape["L"]), "L": shape["L"]} if i == shape["p"] else _num(rng)) for i in range(shape["d"])]}
     if ckind == "nested":
         return {"l": [_num(rng), {"t": [_num(rng, False), _num(rng, False)]}]}
-    if ckind == "sparse": return {"d": {k: _num(rng, False) for k in ["f", "g", "h"] if rng.random() < .7} or {"f": 1}}
+    ks = shape.get("keys", ["f", "g", "h"])
+    if ckind == "sparse": return {"d": {k: _num(rng, False) for k in ks if rng.random() < .7} or {ks[0]: 1}}
     if ckind == "sparse_cat":
-        d = {k: _num(rng, False) for k in ["f", "g"] if rng.random() < .7}; d["q"] = {"c": rng.choice(shape["L"]), "L": shape["L"]}
+        d = {k: _num(rng, False) for k in ks[:2] if rng.random() < .7}; d["q"] = {"c": rng.choice(shape["L"]), "L": shape["L"]}
         return {"d": d}
     raise ValueError(ckind)
 
